@@ -61,8 +61,8 @@ impl Ledger {
 
 #[derive(Clone, Debug)]
 enum Op {
-    /// resource index, inbound?, batch
-    Enter(usize, bool, u32),
+    /// resource index, inbound?, batch, resource type (0..6)
+    Enter(usize, bool, u32, u8),
     /// exit open entry idx % len, with error flag
     Exit(usize, bool),
     Adv(u64),
@@ -83,7 +83,7 @@ impl Case {
     fn to_json(&self) -> Value {
         json!({"nres": self.nres, "iso": self.iso, "flow": self.flow, "brk": self.brk, "t0": self.t0,
             "ops": self.ops.iter().map(|o| match o {
-                Op::Enter(r, i, b) => json!(["enter", r, i, b]),
+                Op::Enter(r, i, b, ty) => json!(["enter", r, i, b, ty]),
                 Op::Exit(i, e) => json!(["exit", i, e]),
                 Op::Adv(ms) => json!(["adv", ms]),
             }).collect::<Vec<_>>()})
@@ -109,6 +109,8 @@ fn gen_case(rng: &mut Rng, base: u64, long: bool) -> Case {
                 rng.below(nres as u64) as usize,
                 rng.chance(1, 2),
                 *rng.pick(&[1u32, 1, 1, 2, 3, 7]),
+                // mostly one type per case, sometimes another type on the same name
+                *rng.pick(&[0u8, 0, 0, 0, 0, 1, 2, 6]),
             )
         } else if k < 8 {
             Op::Exit(rng.below(16) as usize, rng.chance(1, 3))
@@ -226,13 +228,18 @@ fn run_case(case: &Case, inbound: &mut Ledger) -> Outcome {
     let inbound_wide = inbound_node.generate_read_stat(20, 10_000).unwrap();
     let (mut n_block, mut n_pass, mut n_in, mut n_out, mut n_batch, mut rolled) = (0u32, 0u32, 0u32, 0u32, 0u32, false);
     let mut first_event: Option<u64> = None;
+    let mut n_types = 0u32;
     'ops: for (i, op) in case.ops.iter().enumerate() {
         let now_before = VClock::now_ms();
         match op {
             Op::Adv(ms) => VClock::advance_ms(*ms),
-            Op::Enter(r, inb, batch) => {
+            Op::Enter(r, inb, batch, ty) => {
                 let now = now_before;
+                if *ty != 0 {
+                    n_types += 1;
+                }
                 let res = EntryBuilder::new(names[*r].clone())
+                    .with_resource_type(sentinel_core::base::ResourceType::from(*ty))
                     .with_traffic_type(if *inb { TrafficType::Inbound } else { TrafficType::Outbound })
                     .with_batch_count(*batch)
                     .build();
@@ -328,7 +335,7 @@ fn run_case(case: &Case, inbound: &mut Ledger) -> Outcome {
     inbound.prune(now);
     if n_block > 0 && n_pass > 0 && rolled {
         out.sig = Some(format!(
-            "n{}|iso{}|flow{}|brk{}|in{}|out{}|batch{}|blk{}",
+            "n{}|iso{}|flow{}|brk{}|in{}|out{}|batch{}|blk{}|types{}",
             case.nres,
             case.iso.iter().flatten().count(),
             case.flow.iter().flatten().count(),
@@ -337,6 +344,7 @@ fn run_case(case: &Case, inbound: &mut Ledger) -> Outcome {
             (n_out > 0) as u8,
             (n_batch > 0) as u8,
             match n_block { 1 => 1, 2..=4 => 2, _ => 3 },
+            (n_types > 0) as u8,
         ));
     }
     out
